@@ -22,10 +22,12 @@ while args and args[0].startswith('-'):
 if subprocess.run(['git', '-C', '/repo', 'diff', '--quiet']).returncode != 0:
     sys.exit("/repo has uncommitted changes: pin only on the committed tree")
 # build once, then run a private copy of the binary (so that editing the harness meanwhile is harmless)
-subprocess.run(['cargo', 'build', '--release', '--offline', '--manifest-path', os.path.join(V, 'harness', 'Cargo.toml')], check=True, capture_output=True)
+subprocess.run(['cargo', 'build', '--release', '--offline'], check=True, capture_output=True, cwd=os.path.join(V, 'harness'))  # cwd: harness/.cargo/config.toml sets the target dir
 exe = f'/dev/shm/vcheck-pin.{os.getpid()}'
 shutil.copy(os.path.join(V, 'target', 'release', 'vcheck'), exe)
 import atexit; atexit.register(lambda: os.path.exists(exe) and os.remove(exe))
+import json
+VOLATILE = {f['id'] for f in json.load(open(os.path.join(V, 'known_findings.json')))['findings'] if f.get('rule', {}).get('volatile_observation')}
 for prop in args:
     per_run = []
     for r in range(runs):
@@ -52,7 +54,7 @@ for prop in args:
         out.append(f"# finding {i} strict={1 if strict else 0}")
         for k in union:
             obs = {t[i][k] for t in per_run if k in t.get(i, {})}
-            if len(obs) == 1: o = obs.pop()
+            if len(obs) == 1 and i not in VOLATILE: o = obs.pop()
             else: o = '0' * 16; unstable += 1
             out.append(f"{k} {o}")
         summary.append(f"{i}: {len(union)} cases strict={int(strict)} unstable_obs={unstable}")
